@@ -85,6 +85,7 @@ names = [
  ('n1_add', "generated BucketOpenN1::AddCrt keeps the abstraction relation."),
  ('n1_remove', "generated BucketOpenN1::Remove keeps the abstraction relation."),
  ('gen_addnogrow_is_tadd', """T-gen tie of the insertion probe loop.  The loop of HashSet::pvAddNogrow (`while (bucket->IsFull()) { ++probe; if (probe >= bucketCount) throw "Hash table is full"; bucketIndex = GetNextBucketIndex(..); bucket = &buckets[bucketIndex]; }`) is regenerated from HashSet.h on every run (Gen_HashSetMove.v; buckets are handles, IsFull / GetNextBucketIndex are parameters).  Instantiated with the model table (IsFull of the model bucket, the kind's next-index function) the GENERATED loop throws "Hash table is full" exactly when the hand model's tadd fails, and otherwise stops at the bucket and with the probe count where tadd places the item.  So every theorem above about full tables / fallback insertion / migration targets rests on the generated loop."""),
+ ('gen_addnogrow_whole', "the WHOLE generated pvAddNogrow (instantiation <false>, translated with loop_return_keeps_state; tables of up to 70 buckets = the translator's fuel): throws 'Hash table is full' iff the hand model's add_loop fails; otherwise the returned position names the bucket where tadd puts the item, mCount is unchanged, and the probe count handed to startBucket.UpdateMaxProbe (recorded field rec_maxprobe) is the one tadd hands to upd_bound."),
  ('gen_addnogrow_loop', "the same, loop against loop: generated pvAddNogrow loop = the hand model's add_loop from any intermediate probe."),
  ('gen_reloc_inner', "T-gen, loop skeleton of HashSet::pvRelocateItems(Buckets ptr) -- generated; GetHashCodePart and Remove-with-replacer -- whose replacer is the pvAddNogrow into the newest table -- are parameters = the item move as a primitive: the inner loop over a bucket with c items performs exactly c moves, on the items end-1, end-2, ..., end-c (last to first, the order of the hand model's reloc_items), given that Remove of the last item hands the iterator back."),
  ('gen_reloc_outer', "... and the outer loop handles every bucket 0 .. bucketCount-1 exactly once in ascending order (the order of the hand model's reloc_buckets) and ends at bucketCount.  The EFFECTS of a move, the exception paths (failure swallowed, generations stay linked) and the recursion over older generations remain hand-modelled (GrowModel.reloc) and are tied by T-cor."),
